@@ -536,7 +536,9 @@ REPLACED_CALLS = [('exp', 1), ('log', 1), ('max', 2), ('min', 2)]
 OTHER_CALLS = [('abs', 1), ('float', 1), ('np.sqrt', 1), ('np.abs', 1), ('np.exp', 1), ('np.log', 1),
                ('np.maximum', 2), ('np.minimum', 2), ('np.max', 1), ('np.min', 1), ('np.log10', 1),
                ('np.fmax', 2), ('np.float64', 1)]
-VERB_FRAGMENTS = ['2.5', 'np.pi', '(1 + 2)', 'np.e', '0.5e1']
+VERB_FRAGMENTS = ['2.5', 'np.pi', '(1 + 2)', 'np.e', '0.5e1',
+                  # fragments are inserted untouched: whitespace inside them (string literals!) must survive
+                  "len('a  b')", "'( x )'.count(' ')", '( 1  +  2 )', "len('tab\there')", 'max(1,  2)', "len(' = ')"]
 
 NUMBERS = ['0', '1', '2', '3', '10', '0.5', '2.', '.25', '1.5', '100', '0.125']
 
